@@ -39,6 +39,9 @@ func languageSweep(r *ev.Run, G *gprops, gs *gstats, vers []int, thorough bool) 
 	if G.accept || G.decOn {
 		r.Phase("decoder re-use", func() { reusePhase(r, vers) })
 	}
+	r.Phase("value lattices", func() { valueLattices(r, G, gs, vers, thorough) })
+	r.Phase("foreign names", func() { nameSweep(r, G, gs, vers, thorough) })
+	r.Phase("vectors of the other version", func() { crossVersion(r, G, gs, vers) })
 	r.Phase("edit ball", func() { editBall(r, G, gs, vers, thorough) })
 	r.Phase("short byte strings", func() {
 		n := 5
@@ -49,7 +52,163 @@ func languageSweep(r *ev.Run, G *gprops, gs *gstats, vers []int, thorough bool) 
 	})
 }
 
-const graphRule = "explicit-state search of the real decoders: a state is the reflective dump of the decoder object after Decode(prefix) plus the decoder's residue (deferred unsupported-metric flag; v2: canonical-order flag); from every expanded state every token of the alphabet (all name:code pairs of the level, invalid values, foreign names, malformed tokens) is appended and the real Decode is run on the whole string; each executed string is judged by the reference recogniser written from the property text; plus stateless sets (all 40,320 base token orders, temporal/environmental placements, v2 group permutations, all token sequences of length <=2/3), character edit balls of radius 1/2 around seed vectors, every byte string of length <=5/6 over a 12-byte alphabet, pumped inputs (a prefix followed by k copies of one token for every k<=300 and around 2^9..2^16), every letter-case variant of every name and code, and second decodes on used decoders (whatever a used decoder accepts must be well-formed and equal a fresh decode)"
+// valueLattices: complete value products that the token graphs (one or two values per metric)
+// do not contain.  v2: every (temporal group or none, environmental group or none) pair — all
+// 194,021 — on two base vectors at the environmental decoder, every temporal group at the
+// temporal decoder, and a slice of them at the decoder one level too low (must be rejected);
+// value codes differ in length in v2, so anything that depends on the length or the exact text
+// of a well-formed vector shows here (round 4: a maximum-length guard derived from the all-ND
+// vector, C08-B-r4).  v3: every vector that differs from a background vector in at most two
+// metrics, at every level.
+func valueLattices(r *ev.Run, G *gprops, gs *gstats, vers []int, thorough bool) {
+	var n int64
+	for _, ver := range vers {
+		if ver == 2 {
+			egs, tgs := v2EnvGroups(), v2TempGroups()
+			bases := []map[string]string{
+				{"AV": "N", "AC": "L", "Au": "N", "C": "C", "I": "C", "A": "C"},
+				{"AV": "L", "AC": "H", "Au": "M", "C": "N", "I": "P", "A": "N"},
+			}
+			safeParallel(r, len(egs), func(gi int) {
+				var ln int64
+				for _, t := range tgs {
+					for bi, b := range bases {
+						if bi > 0 && !thorough && gi%7 != 0 {
+							continue
+						}
+						tok := merge(merge(b, t.tok), egs[gi].tok)
+						judge(r, G, gs, 2, 2, canonicalWritten(2, 2, "", tok))
+						ln++
+						if gi%97 == 0 && egs[gi].present {
+							judge(r, G, gs, 2, 1, canonicalWritten(2, 2, "", tok)) // environmental group at the temporal decoder
+							ln++
+						}
+					}
+				}
+				atomic.AddInt64(&n, ln)
+			})
+			for _, t := range tgs {
+				for _, b := range bases {
+					tok := merge(b, t.tok)
+					judge(r, G, gs, 2, 1, canonicalWritten(2, 1, "", tok))
+					if len(t.tok) > 0 {
+						judge(r, G, gs, 2, 0, canonicalWritten(2, 1, "", tok)) // temporal group at the base decoder
+					}
+					n += 2
+				}
+			}
+			continue
+		}
+		bgs := reportBackgrounds()
+		safeParallel(r, len(bgs), func(bi int) {
+			bg := bgs[bi]
+			ms := spec.UpTo(3, 2)
+			var ln int64
+			for i := 0; i < len(ms); i++ {
+				for _, ci := range ms[i].Codes {
+					for j := i; j < len(ms); j++ {
+						for _, cj := range ms[j].Codes {
+							if j == i && cj.Code != ci.Code {
+								continue
+							}
+							tok := copyTok(bg.tok)
+							tok[ms[i].Name], tok[ms[j].Name] = ci.Code, cj.Code
+							for level := 0; level < 3; level++ {
+								if level < ms[i].Level && level < ms[j].Level && !(i == 0 && j == 0) {
+									continue // the projection does not contain the changed metrics
+								}
+								judge(r, G, gs, 3, level, canonicalWritten(3, level, bg.ver, lang.Project(3, level, tok)))
+								ln++
+							}
+						}
+					}
+				}
+			}
+			atomic.AddInt64(&n, ln)
+		})
+	}
+	r.Add("value_lattice_inputs", n)
+}
+
+// nameSweep: every metric name of one to three upper-case letters (18,278), with each of a set
+// of value codes, appended to a complete vector of each level: a name lookup by binary search,
+// by prefix or through a table that answers for names it does not hold accepts some of them
+// (round 4, C07-A-r4).  Names of the decoder's level are duplicates and must be rejected too.
+func nameSweep(r *ev.Run, G *gprops, gs *gstats, vers []int, thorough bool) {
+	var names []string
+	for a := 'A'; a <= 'Z'; a++ {
+		names = append(names, string(a))
+		for b := 'A'; b <= 'Z'; b++ {
+			names = append(names, string([]rune{a, b}))
+			for c := 'A'; c <= 'Z'; c++ {
+				names = append(names, string([]rune{a, b, c}))
+			}
+		}
+	}
+	names = append(names, "Au", "AU", "au", "E0", "M1", "CVSS", "MAVX", "MODIFIED", "Mav", "mav")
+	var n int64
+	for _, ver := range vers {
+		ver := ver
+		values := []string{"H", "N", "X", "L"}
+		if ver == 2 {
+			values = []string{"H", "N", "ND", "L"}
+		}
+		if thorough {
+			values = append(values, "P", "C", "U", "M", "A", "R", "O", "T", "W", "F")
+		}
+		full := lang.Classify(ver, 2, seeds(ver)[2])
+		for level := 0; level < 3; level++ {
+			level := level
+			// a complete vector of the level, and one that holds the base metrics only
+			stems := []string{canonicalWritten(ver, level, full.Ver, lang.Project(ver, level, full.Tokens))}
+			if level > 0 {
+				stems = append(stems, canonicalWritten(ver, 0, full.Ver, lang.Project(ver, 0, full.Tokens)))
+			}
+			safeParallel(r, len(names), func(ni int) {
+				var ln int64
+				for _, stem := range stems {
+					for _, v := range values {
+						judge(r, G, gs, ver, level, stem+"/"+names[ni]+":"+v)
+						ln++
+					}
+				}
+				atomic.AddInt64(&n, ln)
+			})
+		}
+	}
+	r.Add("foreign_name_inputs", n)
+}
+
+// crossVersion: well-formed vectors of the other CVSS version (and v3 vectors without their
+// prefix, v2 vectors behind a v3 prefix) offered to every decoder.
+func crossVersion(r *ev.Run, G *gprops, gs *gstats, vers []int) {
+	var n int64
+	for _, ver := range vers {
+		other := 5 - ver
+		var ins []string
+		for level := 0; level < 3; level++ {
+			ins = append(ins, reuseInputs(other, level)...)
+		}
+		for _, s := range append([]string{}, ins...) {
+			if other == 3 {
+				if i := strings.Index(s, "/"); i > 0 {
+					ins = append(ins, s[i+1:]) // v3 metrics without the prefix
+				}
+			} else {
+				ins = append(ins, "CVSS:3.1/"+s, "CVSS:3.0/"+s, "CVSS:2.0/"+s)
+			}
+		}
+		for level := 0; level < 3; level++ {
+			for _, s := range ins {
+				judge(r, G, gs, ver, level, s)
+				n++
+			}
+		}
+	}
+	r.Add("other_version_inputs", n)
+}
+
+const graphRule = "explicit-state search of the real decoders: a state is the reflective dump of the decoder object after Decode(prefix) plus the decoder's residue (deferred unsupported-metric flag; v2: canonical-order flag); from every expanded state every token of the alphabet (all name:code pairs of the level, invalid values, foreign names, malformed tokens) is appended and the real Decode is run on the whole string; each executed string is judged by the reference recogniser written from the property text; plus stateless sets (all 40,320 base token orders, temporal/environmental placements, v2 group permutations, all token sequences of length <=2/3), character edit balls of radius 1/2 around seed vectors, every byte string of length <=5/6 over a 12-byte alphabet, pumped inputs (a prefix followed by k copies of one token for every k<=300 and around 2^9..2^16), every letter-case variant of every name and code, complete value products (every v2 optional-group combination; every v3 vector within two metric changes of four backgrounds), every foreign metric name of one to three upper-case letters, well-formed vectors of the other CVSS version, and second decodes on used decoders (whatever a used decoder accepts must be well-formed and equal a fresh decode)"
 
 func graphAssumptions(r *ev.Run) {
 	r.Assume("reference recogniser mc/internal/lang written from the property texts C07-C11 over the specification tables in mc/internal/spec")
